@@ -209,7 +209,7 @@ def run(rep):
     # the same number arrives as Int from a signed Rust integer and as UInt from YAML/JSON/unsigned integers: the solver's numeric tables
     # must treat the two kinds alike (operand extraction per cast kind x value kind, mixed comparisons; shared with C09)
     import core
-    core.import_rules(rep, "c09", {"T-CAST", "T-CMP"})
+    core.import_rules(rep, "c09", {"T-CAST", "T-CMP", "T-STR"})
     rep.floor("T-ADAPT", 34)
     rep.floor("T-NUMBER", 9)
     rep.floor("T-CONTAINER", 10)
